@@ -705,14 +705,31 @@ theorem goSetBytes3_refines (P : Prims α) (C : Codec α) (g : α → α) (R : R
 namespace Codec
 variable {C : Codec α}
 
-theorem phase2Go_unc (sub : Bool) (x y : α) (hoff : C.phase2 sub (.unc x y) ≠ .error .offcurve) :
+theorem phase2Go_unc (sub : Bool) (x y : α) (hoff : sub = false → C.phase2 sub (.unc x y) ≠ .error .offcurve) :
     C.phase2Go sub (.unc x y) = C.phase2 sub (.unc x y) := by
   simp only [Codec.phase2Go, Codec.phase2, Codec.goInSub, Codec.mkPt] at *
   by_cases h0 : x = C.zero ∧ y = C.zero
   · simp [h0]
   · by_cases hc : C.sq y = C.rhs x
     · simp [h0, hc]
-    · cases sub <;> simp [h0, hc] at hoff ⊢
+    · cases sub
+      · have := hoff rfl
+        simp [h0, hc] at this
+      · simp [h0, hc]
+
+/-- without subgroup check the uncompressed branch checks NOTHING about the pair it read (finding F2 of Props/C07.lean) -/
+theorem phase2Go_unc_nosub (x y : α) : C.phase2Go false (.unc x y) = .ok (C.mkPt x y) := by
+  simp [Codec.phase2Go]
+
+/-- a root `y = 0` (2-torsion) is returned for BOTH compressed flags (finding F3 of Props/C07.lean) -/
+theorem phase2Go_comp_zero (h : C.OK) (sub : Bool) (x : α) (large : Bool) (hs : C.sqrt (C.rhs x) = some C.zero)
+    (hsub : sub = true → C.goInSub x C.zero = true) :
+    C.phase2Go sub (.comp x large) = .ok (C.mkPt x C.zero) := by
+  have hy : (if C.lex C.zero = large then C.zero else C.neg C.zero) = C.zero := by split <;> simp [h.neg_zero]
+  simp only [Codec.phase2Go, hs, hy]
+  cases sub
+  · simp
+  · simp [hsub rfl]
 
 theorem phase2Go_comp (h : C.OK) (sub : Bool) (x : α) (large : Bool) (hx : C.Valid x)
     (hlex : C.phase2 sub (.comp x large) ≠ .error .lex) :
@@ -740,7 +757,7 @@ theorem phase2Go_comp (h : C.OK) (sub : Bool) (x : α) (large : Bool) (hx : C.Va
 /-- the generated `setBytes` semantics IS the decoder of the model, except on the two findings: the model answers `lex` (a compressed
 flag that disagrees with the sign of the root, only possible for y = 0) or `offcurve` (uncompressed, subgroup check off, not on the curve) -/
 theorem goDecode_eq_setBytes (h : C.OK) (sub : Bool) (buf : List UInt8)
-    (h1 : C.setBytes sub buf ≠ .error .lex) (h2 : C.setBytes sub buf ≠ .error .offcurve) :
+    (h1 : C.setBytes sub buf ≠ .error .lex) (h2 : sub = false → C.setBytes sub buf ≠ .error .offcurve) :
     C.goDecode sub buf = C.setBytes sub buf := by
   unfold Codec.goDecode Codec.setBytes at *
   cases hpf : C.parseFrame buf with
@@ -757,7 +774,7 @@ theorem goDecode_eq_setBytes (h : C.OK) (sub : Bool) (buf : List UInt8)
         rcases Codec.phase1_ok fl xs ys pd hp1 with ⟨_, _, rfl⟩ | ⟨_, _, _, rfl⟩ | ⟨_, _, _, rfl⟩ | ⟨_, hlt, rfl⟩ | ⟨_, hlt, rfl⟩
         · rfl
         · rfl
-        · apply phase2Go_unc; intro hh; rw [hh] at h2; exact h2 rfl
+        · apply phase2Go_unc; intro hs hh; rw [hh] at h2; exact h2 hs rfl
         · apply phase2Go_comp h _ _ _ (valid_ofComps h xs hf.xlen ((allLt_iff _ _).mp hlt)).1
           intro hh; rw [hh] at h1; exact h1 rfl
         · apply phase2Go_comp h _ _ _ (valid_ofComps h xs hf.xlen ((allLt_iff _ _).mp hlt)).1
